@@ -394,6 +394,60 @@ func gen(c *hx.Ctx) {
 		c.Emit("unique %s %s", shKinds[i%4], showInts(a))
 		c.Count("unique_shared_random")
 	}
+	// 5d. float64 / float32 keys and values, elements given as bit-pattern tokens (3 = -0, 4 = +0, 2/5 denormals,
+	// 0/7 infinities, 8/9 NaNs with different payloads, 1/6 = -1/+1): == is coarser than identity on these
+	fltModes := []string{"f64", "f32", "ff", "vf64", "vf32"}
+	for n := 0; n <= c.Budget(5, 6); n++ { // exhaustive over {-0, +0, 1, -1}
+		seqOver(4, n, func(a []int) {
+			tok := make([]int, len(a))
+			for i, x := range a {
+				tok[i] = []int{3, 4, 6, 1}[x]
+			}
+			emitSlice(c, fltModes[k%3], tok, n)
+			c.Count("float_keys_exhaustive")
+			// float VALUES: ids 3 and 4 are -0 and +0; int/string keys over 4 letters
+			emitSlice(c, fltModes[3+k%2], a, n)
+			c.Count("float_values_exhaustive")
+			k++
+		})
+	}
+	for i := 0; i < c.Budget(1200, 20000); i++ {
+		n := c.Rng.Range(0, 70)
+		if c.Rng.Intn(12) == 0 {
+			n = c.Rng.Range(70, 400)
+		}
+		mode := fltModes[i%5]
+		a := make([]int, n)
+		if i%5 < 3 {
+			alpha := [][]int{{3, 4}, {3, 4, 6}, {0, 1, 2, 3, 4, 5, 6, 7}, {2, 3, 4, 5}, {3, 4, 10, 11, 12, 13}}[c.Rng.Intn(5)]
+			nan := c.Rng.Intn(6) == 0 // NaN keys: < is not a strict weak order, only the any-less clauses are judged
+			for j := range a {
+				a[j] = c.Rng.Pick(alpha)
+				if nan && c.Rng.Intn(5) == 0 {
+					a[j] = 8 + c.Rng.Intn(2)
+				}
+			}
+			if nan {
+				c.Count("float_keys_with_nan")
+			} else {
+				c.Count("float_keys_random")
+			}
+		} else {
+			letters := c.Rng.Pick([]int{1, 2, 3, 5, 50})
+			for j := range a {
+				a[j] = c.Rng.Intn(letters)
+			}
+			if c.Rng.Intn(3) == 0 {
+				sort.Sort(sort.Reverse(sort.IntSlice(a)))
+			}
+			c.Count("float_values_random")
+		}
+		nv := n
+		if c.Rng.Intn(6) == 0 {
+			nv = c.Rng.Range(0, n+3)
+		}
+		emitSlice(c, mode, a, nv)
+	}
 	// 6. Unique: exhaustive over 3 letters, random, sorted
 	U := c.Budget(7, 10)
 	for n := 0; n <= U; n++ {
